@@ -20,7 +20,9 @@
 (***************************************************************************)
 EXTENDS Moments
 
-Term(c, ln, f, t) == [c |-> c, ln |-> ln, f |-> f, t |-> t]
+\* hm = TRUE: the term is additionally multiplied by the real value of the log-number m
+Term(c, ln, f, t) == [c |-> c, ln |-> ln, f |-> f, t |-> t, hm |-> FALSE, m |-> LNZero]
+TermM(c, ln, f, t, m) == [c |-> c, ln |-> ln, f |-> f, t |-> t, hm |-> TRUE, m |-> m]
 
 \* polynomials over the field: sequences of coefficients, lowest degree first
 PolyEval(p, t) == FSumTo([k \in 1..Len(p) |-> FMul(p[k], FPow(t, k - 1))], Len(p))
@@ -64,10 +66,10 @@ TruncMomentVal(k, ln, mu, sigma, aInf, alpha, bInf, beta) ==
              k + 1)
 
 \* a Val is zero iff, after collecting like atoms, every coefficient vanishes
-ValKeys(v) == {<<v[k].f, v[k].t, v[k].ln>> : k \in 1..Len(v)}
+ValKeys(v) == {<<v[k].f, v[k].t, v[k].ln, v[k].hm, v[k].m>> : k \in 1..Len(v)}
 ValIsZero(v) ==
     \A key \in ValKeys(v) :
-        FEq(FSumTo([k \in 1..Len(v) |-> IF <<v[k].f, v[k].t, v[k].ln>> = key THEN v[k].c ELSE 0], Len(v)), 0)
+        FEq(FSumTo([k \in 1..Len(v) |-> IF <<v[k].f, v[k].t, v[k].ln, v[k].hm, v[k].m>> = key THEN v[k].c ELSE 0], Len(v)), 0)
 ValNeg(v) == [k \in 1..Len(v) |-> [v[k] EXCEPT !.c = FNeg(v[k].c)]]
 ValEq(v, w) == ValIsZero(v \o ValNeg(w))
 
